@@ -308,5 +308,25 @@ SUBCHECKS = [
     SubCheck("artefacts", o_art, strategy=art_cases, examples=(300, 1500), shards=(4, 12),
              rule="measurements, expectation values, parities, value estimates, lists, layers, connectivity, ordering, nmeas estimates"),
 ]
+
+
+def _campaigns(tier):
+    import os
+
+    seed = int(os.environ.get("VERIF_SEED_EFFECTIVE", "1"))
+    for target, runs in (("pauli_struct", 150000), ("pauli_text", 300000)):
+        for corpus in ("empty", "seeded"):
+            yield {"target": target, "runs": runs, "corpus": corpus, "seed": seed, "max_len": 128}
+
+
+def o_fuzz(spec):
+    from vlib.fuzz import run_campaign
+
+    return run_campaign(spec)
+
+
+SUBCHECKS.append(SubCheck("atheris_print_parse", o_fuzz, enumerate=_campaigns, shards=(1, 4), tiers=("thorough",), timeout=(600, 3000),
+                          rule="coverage-guided (Atheris/libFuzzer) campaigns, empty and seeded corpus: bytes -> structured operator -> print -> parse -> "
+                               "canonical compare; bytes -> token text -> parse(print(parse(text))) == parse(text) on accepted text"))
 SUBCHECKS[0].expected_classes = ["constant_term", "empty_sum", "complex_coefficient", "exponent_notation", "positive_exponent", "multi_digit_index", "unsimplified"]
 SUBCHECKS[1].expected_classes = ["absent_frames", "precision_none", "frame_meas_none", "empty_measurements", "complex_values"]
